@@ -242,6 +242,7 @@ func c19Run(e *Env, p *c19Plan) {
 		logs := fs.Requests(c.ID)
 		mu.Lock()
 		tried := attempt[c.ID]
+		dials := tried // index into the per-dial fault list
 		// transmissions also count when they died on the way: every connection that carries the request line
 		// (attempts = dials made for this request + pooled connections it was written to)
 		for _, sc := range caseConns[:nwarm] {
@@ -277,11 +278,11 @@ func c19Run(e *Env, p *c19Plan) {
 		}
 		// nothing after an oversized response
 		for k, f := range c.Faults {
-			if f == "oversize" && k < tried-1 {
+			if f == "oversize" && k < dials-1 {
 				e.Violation("retried-after-too-large", "%s; attempt %d ended with a too large body and was followed by another attempt", tag, k)
 				return
 			}
-			if f == "oversize" && k == tried-1 && c.Method != "HEAD" && err == nil {
+			if f == "oversize" && k == dials-1 && c.Method != "HEAD" && err == nil {
 				e.Violation("too-large-accepted", "%s; a 5000-byte body (%s framing) was accepted with MaxResponseBodySize=%d", tag, c.OverFrame, p.MaxResp)
 				return
 			}
@@ -312,7 +313,7 @@ func c19Run(e *Env, p *c19Plan) {
 		if tried > 1 {
 			e.Probe("retried")
 		}
-		for _, f := range c.Faults[:min(tried, len(c.Faults))] {
+		for _, f := range c.Faults[:min(dials, len(c.Faults))] {
 			if f != "ok" && f != "dial" && f != "write" {
 				e.Fault(f)
 			}
